@@ -12,6 +12,7 @@ import (
 	"github.com/btcsuite/btcd/chaincfg"
 	"github.com/btcsuite/btcd/wire"
 	zcore "github.com/Zilliqa/gozilliqa-sdk/core"
+	zlcore "github.com/renlulu/gozilliqa-sdklegacy/core"
 	ecommon "github.com/ethereum/go-ethereum/common"
 	etypes "github.com/ethereum/go-ethereum/core/types"
 	"github.com/ethereum/go-ethereum/rlp"
@@ -69,6 +70,13 @@ func parliaHeader(number int64) etypes.Header {
 	return etypes.Header{Number: big.NewInt(number), Difficulty: big.NewInt(2), Extra: extra, Time: 1600000000}
 }
 
+// same layout with the eth router's own header type (heco, hsc, pixiechain use it)
+func parliaEthHeader(number int64) eth.Header {
+	extra := make([]byte, 32+20+65)
+	extra[32] = 0x11
+	return eth.Header{Number: big.NewInt(number), Difficulty: big.NewInt(2), Extra: extra, Time: 1600000000}
+}
+
 func prevVals(number int64) (*big.Int, []ecommon.Address) {
 	return big.NewInt(number - 200), []ecommon.Address{{0x11}}
 }
@@ -117,7 +125,7 @@ func routerSpecs() []routerSpec {
 		}},
 		{Name: "heco", Router: utils.HECO_ROUTER, Genesis: func() []byte {
 			h, v := prevVals(n)
-			return mustJSON(&heco.GenesisHeader{Header: parliaHeader(n), PrevValidators: []heco.HeightAndValidators{{Height: h, Validators: v}}})
+			return mustJSON(&heco.GenesisHeader{Header: parliaEthHeader(n), PrevValidators: []heco.HeightAndValidators{{Height: h, Validators: v}}})
 		}},
 		{Name: "quorum", Router: utils.QUORUM_ROUTER, Genesis: func() []byte {
 			payload, err := rlp.EncodeToBytes(&quorum.IstanbulExtra{Validators: []ecommon.Address{{0x11}}, Seal: []byte{}, CommittedSeal: [][]byte{}})
@@ -128,7 +136,8 @@ func routerSpecs() []routerSpec {
 			return mustJSON(&h)
 		}},
 		{Name: "zilliqalegacy", Router: utils.ZILLIQA_LEGACY_ROUTER, Genesis: func() []byte {
-			return mustJSON(&zilliqalegacy.TxBlockAndDsComm{TxBlock: zilTxBlock(), DsBlock: zilDsBlock(), DsComm: []zcore.PairOfNode{}})
+			return mustJSON(&zilliqalegacy.TxBlockAndDsComm{TxBlock: &zlcore.TxBlock{BlockHeader: &zlcore.TxBlockHeader{BlockNum: 10, DSBlockNum: 2}},
+				DsBlock: &zlcore.DsBlock{BlockHeader: &zlcore.DsBlockHeader{BlockNum: 2}}, DsComm: []zlcore.PairOfNode{}})
 		}},
 		{Name: "msc", Router: utils.MSC_ROUTER, ExtraInfo: mustJSON(&msc.ExtraInfo{ChainID: big.NewInt(7), Period: 3, Epoch: 200}), Genesis: func() []byte {
 			h := parliaHeader(n)
@@ -179,11 +188,11 @@ func routerSpecs() []routerSpec {
 		}},
 		{Name: "pixiechain", Router: utils.PIXIECHAIN_ROUTER, Genesis: func() []byte {
 			h, v := prevVals(n)
-			return mustJSON(&pixiechain.GenesisHeader{Header: parliaHeader(n), PrevValidators: []pixiechain.HeightAndValidators{{Height: h, Validators: v}}})
+			return mustJSON(&pixiechain.GenesisHeader{Header: parliaEthHeader(n), PrevValidators: []pixiechain.HeightAndValidators{{Height: h, Validators: v}}})
 		}},
 		{Name: "hsc", Router: utils.HSC_ROUTER, Genesis: func() []byte {
 			h, v := prevVals(n)
-			return mustJSON(&hsc.GenesisHeader{Header: parliaHeader(n), PrevValidators: []hsc.HeightAndValidators{{Height: h, Validators: v}}})
+			return mustJSON(&hsc.GenesisHeader{Header: parliaEthHeader(n), PrevValidators: []hsc.HeightAndValidators{{Height: h, Validators: v}}})
 		}},
 		{Name: "harmony", Router: utils.HARMONY_ROUTER, Note: "router package needs cgo libbls (absent offline): the sandbox build replaces it by a stub whose methods return an error"},
 		{Name: "bytom", Router: utils.BYTOM_ROUTER, Genesis: func() []byte {
@@ -202,7 +211,7 @@ type sliceWriter struct{ b *[]byte }
 func (w *sliceWriter) Write(p []byte) (int, error) { *w.b = append(*w.b, p...); return len(p), nil }
 
 func zilTxBlock() *zcore.TxBlock {
-	return &zcore.TxBlock{BlockHeader: zcore.TxBlockHeader{BlockNum: 10, DSBlockNum: 2}}
+	return &zcore.TxBlock{BlockHeader: &zcore.TxBlockHeader{BlockNum: 10, DSBlockNum: 2}}
 }
 
 func zilDsBlock() *zcore.DsBlock {
